@@ -1102,7 +1102,7 @@ class MayRaise:
 
     def index_in_range(self, x: str, idx: ast.expr, facts: FrozenSet[Fact]) -> Tuple[bool, str]:
         ci = const_int(idx)
-        nonempty = ("T", x) in facts or any(f[0] in ("LEN>=",) and f[1] == x and _ge1(f[2]) for f in facts) or any(f[0] == "IDX" and f[2] == x for f in facts)
+        nonempty = ("T", x) in facts or any(f[0] in ("LEN>=", "LEN==") and f[1] == x and _ge1(f[2]) for f in facts) or any(f[0] == "IDX" and f[2] == x for f in facts)
         if ci is not None:
             if ci in (0, -1):
                 return (nonempty, f"`{x}` is not known to be non-empty")
@@ -1938,7 +1938,8 @@ class MayRaise:
             ok = False
             a = e.args[0] if e.args else None
             why = "argument length not known to be 1"
-            if isinstance(a, ast.Call) and isinstance(a.func, ast.Attribute) and a.func.attr == "group":
+            if (isinstance(a, ast.Call) and isinstance(a.func, ast.Attribute) and a.func.attr == "group") or \
+                    (isinstance(a, ast.Subscript) and self.r.strip_opt(self.r.type_of(a.value, fi)) == prim("match")):
                 ok = None   # decided by the regex engine (single-character match); recorded as assumption here
                 why = "length-1 match: decided by the regular-expression analysis (C13/C16)"
                 self.implicit_sites.append({"function": fi.qualname, "construct": norm(e)[:100], "kind": "ord", "exception": "TypeError",
